@@ -19,7 +19,9 @@ operator. For electronic system, it means to couple all the electrons by pair.
 
 import itertools
 
-from tangelo.toolboxes.operators import BosonOperator, QubitOperator
+import numpy as np
+
+from tangelo.toolboxes.operators import BosonOperator, QubitOperator, normal_ordered
 
 
 def hard_core_boson_operator(ferm_op):
@@ -38,21 +40,27 @@ def hard_core_boson_operator(ferm_op):
         BosonOperator: Self-explanatory.
     """
 
-    # Getting the molecular integrals.
-    cte, e_sei, e_tei = ferm_op.get_coeffs(spatial=True)
-    e_tei *= 2
+    # Spin-orbital coefficients h[p,q] a^_p a_q and g[p,q,r,s] a^_p a^_q a_r a_s
+    # (even indices are spin-up, odd indices are spin-down).
+    cte, h, g = normal_ordered(ferm_op).get_coeffs(spatial=False)
+    n_mos = (h.shape[0] + 1) // 2
+    h = np.pad(h, (0, 2*n_mos - h.shape[0]))
+    g = np.pad(g, (0, 2*n_mos - g.shape[0]))
 
     boson_op = BosonOperator((), cte)
-    n_mos = e_sei.shape[0]
+
+    # Projection on the space where every spatial orbital is empty or doubly
+    # occupied: b^_i = a^_{i up} a^_{i down}.
     for i, j in itertools.product(range(n_mos), repeat=2):
+        ia, ib, ja, jb = 2*i, 2*i + 1, 2*j, 2*j + 1
         if i == j:
-            coeff = 2*e_sei[i, i] + e_tei[i, i, i, i]
+            coeff = h[ia, ia] + h[ib, ib] + g[ia, ib, ib, ia] + g[ib, ia, ia, ib] - g[ia, ib, ia, ib] - g[ib, ia, ib, ia]
             boson_op += BosonOperator(f"{i}^ {i}", coeff)
         else:
-            r1_coeff = e_tei[i, i, j, j]
+            r1_coeff = g[ia, ib, jb, ja] + g[ib, ia, ja, jb] - g[ia, ib, ja, jb] - g[ib, ia, jb, ja]
             boson_op += BosonOperator(f"{i}^ {j}", r1_coeff)
 
-            r2_coeff = 2*e_tei[i, j, j, i] - e_tei[i, j, i, j]
+            r2_coeff = sum(g[p, q, q, p] - g[p, q, p, q] for p in (ia, ib) for q in (ja, jb))
             boson_op += BosonOperator(f"{i}^ {i} {j}^ {j}", r2_coeff)
 
     return boson_op
